@@ -2,6 +2,9 @@ import HcipyVerif.Lemmas.OpIR
 import HcipyVerif.Lemmas.Effects
 import HcipyVerif.Model.Elements
 import Mathlib.Data.Complex.Basic
+import Mathlib.Algebra.Order.Field.Rat
+import Mathlib.Tactic.Linarith
+import Mathlib.Tactic.NormNum
 
 /-!
 # C06 — every optical element is a linear (fibre injection: conjugate-linear), repeatable map that
@@ -144,6 +147,39 @@ theorem mixed_not_linear :
       ≠ vadd (smul Complex.I (denote (starRingEnd ℂ) (.add .id .conj) [1]))
           (denote (starRingEnd ℂ) (.add .id .conj) [0]) := by
   simp [denote, vadd, smul, Complex.ext_iff]
+
+/-! ### Input-dependent shortcuts are homogeneous but not additive
+
+The class of defect "keep only the modes / pixels / components that carry more than a fraction θ of
+*this* input's power": `f(a·E) = a·f(E)` holds for every `a ≠ 0`, so single-input and
+comparable-magnitude tests pass, yet a faint component riding on a bright one is dropped. -/
+
+/-- Threshold selection relative to the input's own power commutes with every non-zero factor … -/
+theorem keepExcited_homogeneous (θ a : Rat) (ha : a ≠ 0) (x : List Rat) :
+    keepExcited θ (smul a x) = smul a (keepExcited θ x) := by
+  have hpos : 0 < a * a := mul_self_pos.mpr ha
+  unfold keepExcited
+  rw [sumsq_smul]
+  simp only [smul, List.map_map]
+  apply List.map_congr_left
+  intro c _
+  simp only [Function.comp]
+  have h : (θ * (a * a * sumsq x) < a * c * (a * c)) ↔ (θ * sumsq x < c * c) := by
+    constructor
+    · intro h; by_contra hn; push Not at hn; nlinarith
+    · intro h; nlinarith
+  by_cases hc : θ * sumsq x < c * c
+  · simp [hc, h.mpr hc]
+  · have : ¬ (θ * (a * a * sumsq x) < a * c * (a * c)) := fun h' => hc (h.mp h')
+    simp [hc, this]
+
+/-- … but is not additive: with θ = 1e-10 a component of amplitude 1e-6 next to one of amplitude 1
+is dropped from the sum and kept when alone.  Hence it is not the denotation of any linear term. -/
+theorem keepExcited_not_additive :
+    keepExcited (1 / 10 ^ 10) (vadd [1, 0] [0, 1 / 10 ^ 6])
+      ≠ vadd (keepExcited (1 / 10 ^ 10) [1, 0]) (keepExcited (1 / 10 ^ 10) [0, 1 / 10 ^ 6]) := by
+  simp [keepExcited, sumsq, vadd]
+  norm_num
 
 /-! ## Effects -/
 
